@@ -1090,7 +1090,9 @@ func (e *Exec) step(st *State, fr *Frame, b *ssa.BasicBlock, i int, in ssa.Instr
 		}
 		fn := in.Fn.(*ssa.Function)
 		o := st.NewObj("closure")
-		fr.vals[in] = &Value{T: in.Type(), L: []*Term{MkLoc(o, IntLit(0), BV64(0))}, Fn: fn, Bnd: b}
+		cv := &Value{T: in.Type(), L: []*Term{MkLoc(o, IntLit(0), BV64(0))}, Fn: fn, Bnd: b}
+		closureByObj[o] = cv
+		fr.vals[in] = cv
 	case *ssa.MakeMap:
 		o := st.NewObj("map")
 		loc := MkLoc(o, IntLit(0), BV64(0))
